@@ -43,11 +43,15 @@ AnyCp(x, T(_)) == \E i \in 1..Len(x) : T(x[i])
 ValueApis == {"set_header_str", "set_header_bytes", "add_header_value"}
 NameApis == {"set_header_name", "add_header_name"}
 AttrApis == {"cookie_domain", "cookie_path", "cookie_samesite"}
+(* reason phrase: through RequestHandler.set_status, through a direct HTTPConnection.write_headers call of a
+   request-callback application, and through the status string of a WSGI application (WSGIContainer) *)
+ReasonApis == {"status_reason", "conn_reason", "wsgi_reason"}
 
 MustRaise(api, x) ==
     CASE api \in ValueApis -> ~AllCp(x, IsFieldCp)
       [] api \in NameApis -> x = <<>> \/ ~AllCp(x, IsTokenCp)
       [] api = "status_reason" -> FALSE                       \* may be replaced by a safe phrase instead
+      [] api \in {"conn_reason", "wsgi_reason"} -> AnyCp(x, LAMBDA c : IsCtl(c) /\ c # 9)
       [] api = "cookie_name" -> x = <<>> \/ AnyCp(x, LAMBDA c : IsCtl(c) \/ c > 126 \/ c \in {32, 59, 44, 61, 34, 92})
       [] api = "cookie_value" -> AnyCp(x, LAMBDA c : c \in {0, 10, 13} \/ c > 255)
       [] api \in AttrApis -> AnyCp(x, LAMBDA c : IsCtl(c) \/ c = 59 \/ c > 255)
@@ -98,7 +102,7 @@ Utf8(x) == FoldLeft(LAMBDA acc, c : acc \o (IF c < 128 THEN <<c>>
 (* the header name that carries the application string, in the recorded run and in the baseline *)
 Carrier(api, x) == CASE api \in ValueApis -> N_x_t
                      [] api \in NameApis -> LowerSeq(x)
-                     [] api = "status_reason" -> <<>>
+                     [] api \in ReasonApis -> <<>>
                      [] api = "redirect" -> N_location
                      [] OTHER -> N_set_cookie
 Carrier0(api) == IF api \in NameApis THEN N_x_ok ELSE Carrier(api, <<>>)
@@ -113,6 +117,7 @@ IntendedOK(api, x, P) ==
     CASE api \in ValueApis -> vs = <<Trim(x)>>
       [] api \in NameApis -> vs = <<B_v>>
       [] api = "status_reason" -> P.reason = x \/ P.reason = Utf8(x) \/ P.reason = B_unknown
+      [] api \in {"conn_reason", "wsgi_reason"} -> P.reason = x \/ P.reason = Utf8(x)
       [] api = "redirect" -> vs = <<Trim(Utf8(x))>>
       [] api = "cookie_name" -> vs = <<x \o B_eq_v_path>>
       [] api = "cookie_value" ->
@@ -129,7 +134,7 @@ Emitted(api, x, P, P0) ==
     /\ P.ok /\ P.complete /\ P.rest = <<>>
     /\ P0.ok /\ P0.complete
     /\ P.code = P0.code /\ P.body = P0.body
-    /\ api # "status_reason" => P.reason = P0.reason
+    /\ api \notin ReasonApis => P.reason = P0.reason
     /\ Mask(DropNm(P.hdrs, Carrier(api, x))) = Mask(DropNm(P0.hdrs, Carrier0(api)))
     /\ IntendedOK(api, x, P)
 
@@ -162,10 +167,10 @@ Line(api, x) ==
       [] api = "cookie_samesite" -> N_set_cookie \o <<58, 32>> \o B_nv_samesite \o x
       [] OTHER -> N_x_t \o <<58, 32>> \o B_v
 RefMsg(api, x) == <<72, 84, 84, 80, 47, 49, 46, 49, 32, 50, 48, 48, 32>>
-                  \o (IF api = "status_reason" /\ x # <<>> THEN x ELSE <<79, 75>>) \o <<13, 10>>
+                  \o (IF api \in ReasonApis /\ x # <<>> THEN x ELSE <<79, 75>>) \o <<13, 10>>
                   \o Line(api, x) \o <<13, 10>> \o N_content_length \o <<58, 32, 48, 13, 10, 13, 10>>
 Serializable(api, x) == ~MustRaise(api, x) /\ AllCp(x, LAMBDA c : c < 256) /\ api # "cookie_value"
-                        /\ (api = "status_reason" => AllCp(x, IsFieldCp))
+                        /\ (api \in ReasonApis => AllCp(x, IsFieldCp))
                         /\ (api \in AttrApis \cup {"cookie_name"} => x # <<>>)
 WriterSafe ==
     Serializable(cfg.api, cfg.x) =>
@@ -174,11 +179,12 @@ WriterSafe ==
         IN /\ \A i \in 1..Len(m) : m[i] \in {13, 10} => (i > 1 /\ ((m[i] = 10 /\ m[i - 1] = 13) \/ (m[i] = 13 /\ i < Len(m) /\ m[i + 1] = 10)))
            /\ \A i \in 1..Len(m) : m[i] # 0
            /\ P.ok /\ P.complete /\ P.rest = <<>> /\ Len(P.hdrs) = 2
-           /\ IF cfg.api = "status_reason" THEN cfg.x = <<>> \/ P.reason = cfg.x
+           /\ IF cfg.api \in ReasonApis THEN cfg.x = <<>> \/ P.reason = cfg.x
               ELSE IntendedOK(cfg.api, cfg.x, P)
 (* anything that must be rejected would indeed damage the header block if written naively *)
 RejectionJustified ==
-    (MustRaise(cfg.api, cfg.x) /\ AllCp(cfg.x, LAMBDA c : c < 256) /\ cfg.api \in ValueApis \cup NameApis \cup {"redirect"}) =>
+    (MustRaise(cfg.api, cfg.x) /\ AllCp(cfg.x, LAMBDA c : c < 256)
+       /\ cfg.api \in ValueApis \cup NameApis \cup {"redirect", "conn_reason", "wsgi_reason"}) =>
         LET P == ParseResp(RefMsg(cfg.api, cfg.x), FALSE, FALSE)
         IN ~(P.ok /\ P.complete /\ Len(P.hdrs) = 2 /\ IntendedOK(cfg.api, cfg.x, P))
 TypeOK == called \in BOOLEAN
